@@ -6,7 +6,7 @@ CONSTANTS
   Seed <- EnvSeed
   PropLimit = 40
   Thin = 1
-  BigMult = 120
+  BigMult = 50
   Emit = TRUE
 INVARIANTS Check CalcVector
 CHECK_DEADLOCK FALSE
